@@ -12,6 +12,7 @@ import os
 import random
 
 from .. import core
+from .. import hangaware
 from .. import readfiles as rf
 
 PS = rf.PS
@@ -250,7 +251,7 @@ def judge_items(run, cases, impl):
 def run_one(exe, run, line):
     cf = run.casefile("read-one.txt", [line])
     model = core.run_model("read", cf)
-    rc, out, err = core.run_impl(exe, [cf], timeout=120)
+    rc, out, err = core.run_impl(exe, [cf], timeout=25)
     impl = out.split("\n")[:-1]
     return model, impl, rc, err
 
@@ -285,7 +286,7 @@ def compare(run, exe, cases, layouts, model, impl, crashes):
         if not fails(items):
             run.count("unreproducible-disagreement")
             continue
-        small = core.shrink_list(items, fails, max_tests=60)
+        small = core.shrink_list(items, fails, max_tests=60, budget_s=25)
         line = "%s %s %s" % (mode, path, " ".join(small))
         m, im, r, e = run_one(exe, run, line)
         sv = judge_items(run, [line], im)
@@ -375,7 +376,7 @@ def check(run):
         paths.append(path)
     # probe
     plines = [probe_line(layouts[p], p) for p in paths]
-    pout, pcr = core.run_impl_lines(exe, run.work, plines)
+    pout, pcr = hangaware.run_lines(exe, run.work, plines)
     for p, o in zip(paths, pout):
         if o.startswith(("CRASH", "NOT-RUN", "OPEN-FAILED", "NEW-FAILED")):
             run.violation("impl", "cannot open/probe generated %s file: %s" % (layouts[p]["kind"], o[:200]),
@@ -417,7 +418,7 @@ def check(run):
     if not cases:
         return
     model = core.run_model("read", run.casefile("read-cases.txt", cases))
-    impl, crashes = core.run_impl_lines(exe, run.work, cases, timeout=40 if quick else 600)
+    impl, crashes = hangaware.run_lines(exe, run.work, cases, timeout=40 if quick else 600)
     if run.replay_path:
         print("model:          " + model[0][:400])
         print("implementation: " + impl[0][:400])
